@@ -395,6 +395,15 @@ def definition(case, ctx):
         return
     # object level
     asig = s.asig
+    # other signals are alive in the same process: a companion with the same record length and time step but different
+    # smoothing frequencies (as many as the default grid, resp. as many as the drawn targets) is smoothed first
+    for nf, lo, hi in ((50, 0.37, 11.0), (len(targets), 0.21, 17.0)):
+        comp = s.make(smooth_fa_freqs=np.logspace(np.log10(lo), np.log10(hi), max(1, nf)))
+        try:
+            _ = comp.smooth_fa_spectrum
+            comp.gen_smooth_fa_spectrum(band=b)
+        except Exception:  # noqa  (the companion only provides process state; its own results are not asserted here)
+            pass
     how = case.get("container", "ndarray")
     arg = targets if how == "ndarray" else (list(map(float, targets)) if how == "list" else tuple(map(float, targets)))
     f_def = np.array(ctx.lib(lambda: asig.smooth_fa_freqs), dtype=float)
